@@ -627,7 +627,7 @@ def build(desc):
         raise ValueError(fam)
     for key, val in desc.get("ops", []):
         m = apply_op(m, key, val)
-    if desc.get("float32") or os.environ.get("UXMON_F32_EXPERIMENT") == "2":
+    if desc.get("float32"):
         from . import ux
 
         m = ux.mesh_f32(m)  # node coordinates as single-precision lon/lat (what most model output carries)
